@@ -118,3 +118,24 @@ Example C19_autocut_example :
   autocut [F32.of_Z 1; F32.of_Z 2; F32.of_Z 3; F32.of_Z 50; F32.of_Z 51] 1 = Cut 3
   /\ limit [1; 2; 3; 4] 2 = [1; 2] /\ limit [1; 2; 3; 4] 0 = [1; 2; 3; 4].
 Proof. vm_compute. repeat split. Qed.
+
+(** reciprocal-rank fusion: over the UNION of ids, the sum of 1/(k + rank) over the lists that hold
+    the id, ranks counted from 0 in best-first order of each list *)
+From Comet Require Import Proofs.FusionKeysP.
+Theorem C19_rrf_over_union : forall k v t j, NoDup (map fst v) -> NoDup (map fst t) ->
+  lookup j (fuse_rrf k v t) =
+  match lookup j (ranks true v), lookup j (ranks false t) with
+  | Some a, Some b => Some (F64.add (rrf_term k a) (rrf_term k b))
+  | Some a, None => Some (rrf_term k a)
+  | None, Some b => Some (rrf_term k b)
+  | None, None => None
+  end.
+Proof. exact fuse_rrf_spec. Qed.
+Print Assumptions C19_rrf_over_union.
+
+(** whatever the fusion kind, a fused id comes from one of the two inputs *)
+Theorem C19_fused_ids_come_from_inputs : forall kind vw tw k v t j,
+  NoDup (map fst v) -> NoDup (map fst t) ->
+  In j (map fst (fuse kind vw tw k v t)) -> In j (map fst v) \/ In j (map fst t).
+Proof. exact fuse_keys. Qed.
+Print Assumptions C19_fused_ids_come_from_inputs.
